@@ -111,7 +111,7 @@ def run_model(stream, cases, impl_outs, workdir, tag):
     dbin = os.path.join(LEAN, ".lake", "build", "bin", stream.driver)
     p = os.path.join(workdir, "%s.%s.min" % (tag, stream.name))
     if stream.driver_input:
-        dcases = [stream.driver_input(c, o if o is not None else []) for c, o in zip(cases, impl_outs)]
+        dcases = [stream.driver_input(c, o) if o is not None else [] for c, o in zip(cases, impl_outs)]
     else:
         dcases = cases
     write_cases(p, dcases)
@@ -300,7 +300,7 @@ def run_check(prop, tier, seed, replay=None):
         sinfo["impl_s"] = round(time.time() - t1, 2)
         for (ci, rc, err, partial) in crashes:
             sig = "sanitizer-abort:" + st.name + ":" + sanitizer_sig(err)
-            violation(sig, "implementation aborted (rc=%s) on case %d\n%s" % (rc, ci, err[-1500:]),
+            violation(sig, "implementation aborted (rc=%s) on case %d\n%s" % (rc, ci, sanitizer_excerpt(err)),
                       ["case 0"] + cases[ci], stream=st.name)
         model_outs = None
         if st.driver and driver_ok:
@@ -419,10 +419,28 @@ def run_check(prop, tier, seed, replay=None):
 
 
 def sanitizer_sig(err):
+    """kind + innermost c-ares function, e.g. `heap-use-after-free:read_answers`"""
     import re
-    m = re.search(r"(AddressSanitizer|LeakSanitizer|UndefinedBehaviorSanitizer|runtime error)[^\n]*", err)
-    loc = re.search(r"(/repo/src/lib/[\w/.]+:\d+)", err)
-    s = (m.group(0)[:80] if m else "abort")
-    s = re.sub(r"0x[0-9a-f]+", "ADDR", s)
-    s = re.sub(r"\d+ byte", "N byte", s)
-    return s + (" at " + os.path.basename(loc.group(1)) if loc else "")
+    m = re.search(r"SUMMARY: \w+Sanitizer: ([\w-]+) (\S+) in (\w+)", err)
+    if m:
+        return "%s:%s" % (m.group(1), m.group(3))
+    m = re.search(r"SUMMARY: \w+Sanitizer: (\d+ byte\(s\) leaked)", err)
+    if m:
+        f = re.search(r"#\d+ \S+ in (\w+) /repo/src/lib/(?!ares_library_init)", err)
+        return "leak:%s" % (f.group(1) if f else "unknown")
+    m = re.search(r"([\w/.]+):(\d+):\d+: runtime error: ([^\n]*)", err)
+    if m:
+        msg = re.sub(r"\d+", "N", m.group(3))[:60]
+        return "ubsan:%s:%s" % (os.path.basename(m.group(1)), msg)
+    m = re.search(r"Assertion `([^']*)' failed", err)
+    if m:
+        return "assert:" + m.group(1)[:60]
+    if "TIMEOUT" in err:
+        return "hang"
+    return "abort"
+
+
+def sanitizer_excerpt(err):
+    keep = [l for l in err.split("\n") if ("ERROR:" in l or "SUMMARY:" in l or "runtime error" in l or
+            "/repo/src/lib" in l or "Assertion" in l or "freed by" in l or "allocated by" in l)]
+    return "\n".join(keep[:40])
